@@ -180,7 +180,13 @@ def _run_unit_locked(unit, tmpl, seed, rlimit, needs_ast, threads, extra_args, t
         cmd += a
     cmd += list(extra_args)
     res['verus_cmd'] = ' '.join(cmd)
-    p = subprocess.run(cmd, capture_output=True, text=True, cwd=os.path.join(BUILD, udir))
+    try:
+        p = subprocess.run(cmd, capture_output=True, text=True, cwd=os.path.join(BUILD, udir),
+                           timeout=int(os.environ.get('VERIF_VERUS_TIMEOUT', '900')))
+    except subprocess.TimeoutExpired:
+        # a solver query that does not come back is UNDECIDED (exit 2), never an alarm
+        res['undecided'].append('verus did not finish within the time limit (VERIF_VERUS_TIMEOUT, default 900 s)')
+        return res
     open(out_rs + '.stdout.json', 'w').write(p.stdout)
     open(out_rs + '.stderr.txt', 'w').write(p.stderr)
     items = fn_items(out_rs)
